@@ -373,6 +373,11 @@ class _Expr:
     def index_(self, node, st, base, idx):
         k = base.ty.kind
         if k == 'dict' or (k == 'obj' and self.proc.locals.get('$objdict')):
+            if self.proc.locals.get('$dict_may_be_none'):
+                nn = st.clone()
+                nn.assume(base.t == NONE)
+                self.raise_(nn, 'TypeError')
+                st.assume(base.t != NONE)
             m = self.dictval(st, base.t)
             key = box(idx)
             val = z3.Select(m, key)
@@ -550,6 +555,10 @@ class _Expr:
                     self.set_listval(st, ref, Concat(ls, rs))
                     return V(LISTO, ref)
                 return V(SEQ(le), Concat(ls, rs))
+        if isinstance(op, (ast.Add, ast.Sub)) and {lk, rk} == {'obj', 'int'}:
+            a = unbox_int(l.t) if lk == 'obj' else l.t
+            b = unbox_int(r.t) if rk == 'obj' else r.t
+            return vint(a + b if isinstance(op, ast.Add) else a - b)
         if isinstance(op, ast.Sub) and lk in ('int', 'bool') and rk in ('int', 'bool'):
             return vint(self.coerce(l, INT).t - self.coerce(r, INT).t)
         if isinstance(op, ast.Mult) and lk == 'int' and rk == 'int':
@@ -1022,6 +1031,8 @@ class _Contracts:
         return results
 
     def fresh_value(self, ty, prefix='r'):
+        if ty.kind == 'items':
+            return V(ty, fresh(prefix, ObjMap))
         if ty.kind == 'tup':
             return V(ty, tuple(self.fresh_value(t, prefix) for t in ty.args))
         return V(ty, fresh(prefix, sort_of(ty)))
@@ -1607,7 +1618,7 @@ class _Loops:
                 h.env[nm] = self.fresh_value(self.proc.locals[nm], nm)
             else:
                 h.env.pop(nm, None)
-        for fld in self.loop_modifies(spec, body):
+        for fld in self.loop_modifies(spec, body, st.env):
             h.heap.set(fld, fresh('H_' + fld.strip('$'), h.heap.sort(fld)))
         i = fresh('i_' + name, z3.IntSort())
         h.assume(i >= 0)
@@ -1658,7 +1669,7 @@ class _Loops:
                     out.append((s2, o))
         return out
 
-    def loop_modifies(self, spec, body):
+    def loop_modifies(self, spec, body, env=None):
         flds = set(spec.modifies)
         for stmt in body:
             for n in ast.walk(stmt):
@@ -1692,7 +1703,17 @@ class _Loops:
                 if isinstance(n, (ast.Dict,)):
                     flds.add('$dict'); flds.add('$alloc')
                 if isinstance(n, ast.Subscript) and isinstance(n.ctx, (ast.Store, ast.Del)):
-                    flds.add('$dict'); flds.add('$list')
+                    kind = None
+                    if isinstance(n.value, ast.Name):
+                        v = (env or {}).get(n.value.id)
+                        hint = self.proc.locals.get(n.value.id)
+                        kind = (v.ty.kind if v is not None else None) or (hint.kind if hint is not None else None)
+                    if kind == 'dict':
+                        flds.add('$dict')
+                    elif kind == 'list':
+                        flds.add('$list')
+                    else:
+                        flds.add('$dict'); flds.add('$list')
         return flds
 
     # ---------------------------------------------------------------- comprehensions
@@ -1841,7 +1862,11 @@ class Exec(Exec, _Expr, _Calls, _Contracts, _Stmts, _Loops):
             raise Unsupported('break/continue', 'outside loop')
         if o.kind in (FALL, RET):
             val = o.val if o.kind == RET else VNONE
-            if proc.result.kind == 'tup' and val.ty.kind == 'tup':
+            if proc.result.kind == 'items':
+                if val.ty.kind != 'items':
+                    raise Unsupported('return', 'expected a dict items view, got %r' % (val.ty,))
+                res = val.t
+            elif proc.result.kind == 'tup' and val.ty.kind == 'tup':
                 resv = V(proc.result, tuple(self.coerce(x, t, s) for x, t in zip(val.t, proc.result.args)))
                 res = resv
             else:
